@@ -347,6 +347,13 @@ def oracle(ctx: Ctx) -> None:
 
 def replay(ctx: Ctx, data: Dict[str, Any]) -> Dict[str, Any]:
     inp = data["failure"]["input"] if "failure" in data else data
+    if inp.get("kind") == "stub":
+        f = [int(i) for i in inp["failed_checks"]]
+        o = {int(k): v for k, v in inp["step_outcomes"].items()}
+        impl = _Stubbed(inp["target"]).run(f, o)
+        model = ctx.model([f"exec {inp['target']} {_wire(f, o)}"])[0] if ctx.driver_ok else None
+        return {"target": inp["target"], "failed_checks": f, "step_outcomes": o, "impl": impl, "model": model,
+                "property_holds": not (impl.startswith("crash") or impl.startswith("odd") or (impl == "exit0" and bool(f or o)))}
     text = inp["text"]
     entries = [inp["entry"]] if inp.get("entry") in ENTRIES else list(ENTRIES)
     res = run_model(text, entries)
@@ -742,15 +749,16 @@ def correspond(ctx: Ctx) -> None:
             ctx.traces_validated += 1
             if impl != model:
                 ctx.disagree(f"stub-{stream}", {"target": target, "failed_checks": f, "step_outcomes": {str(k): v for k, v in o.items()}}, impl, model)
-                # the direct oracle on this input: a crash or a dropped error of the plumbing is a violation of C02 itself
-                any_err = bool(f) or any(
-                    k in ("write", "mkdir") or sk["steps"][i]["fallible"] for i, k in o.items()
-                )
-                if impl.startswith("crash") or impl.startswith("odd") or (impl == "exit0" and any_err):
+            # the direct oracle on this input (independent of the model): a crash or a dropped error of the plumbing
+            # violates C02 itself
+            any_err = any(i < nc for i in f) or any(k in ("write", "mkdir") or sk["steps"][i]["fallible"] for i, k in o.items())
+            if impl.startswith("crash") or impl.startswith("odd") or (impl == "exit0" and any_err) or (impl.startswith("exit1") and not any_err):
+                sig = f"C02:plumbing:{target}:{impl.split(' ')[0]}"
+                if sum(1 for x in ctx.failures if x["sig"] == sig) < 2:
                     ctx.fail(
                         {"kind": "stub", "target": target, "failed_checks": f, "step_outcomes": {str(k): v for k, v in o.items()}},
                         f"{target}/main.py:execute with failing checks {f} and step outcomes {o}: {impl} (model: {model})",
-                        f"C02:plumbing:{target}:{impl.split(' ')[0]}",
+                        sig,
                     )
             if len(ctx.samples) < 4:
                 ctx.sample({"target": target, "failed_checks": f, "step_outcomes": o, "impl": impl, "model": model})
